@@ -31,7 +31,7 @@ CLAIMED["C11"] = dict(
 UNI = "the program universe U(n): type-directed size-exact enumeration over 12 menus (complete below the per-menu size bound) plus 8 recursion/effect/record schemas with every hole filler below the filler bound (120k programs quick; one size step more in thorough), together with a System-F / F-omega mini universe (explicit type abstraction and application, aliases, existential packages, a type operator, value-level pure functions; 12.7k programs quick, each with all single-site mutants)"
 CLAIMED["C01"] = dict(
     category="exploration",
-    text="Every program of " + UNI + " is printed, accepted by the real front end, linked and stepped one public Eval::step at a time under catch_unwind; any unwind other than the defined arithmetic trap (or a host I/O failure of the legacy stream operations) is a violation attributed to the program text. Also: every mutant the checker accepts (reference-checker catalogue, variance negatives, System-F mutants) must not go wrong; 18 programs with a term hole in each position; 516 data/codata declarations over a small name pool. Decides the property for all programs below the bound; says nothing above it.",
+    text="Every program of " + UNI + " is printed, accepted by the real front end, linked and stepped one public Eval::step at a time under catch_unwind; any unwind other than the defined arithmetic trap (or a host I/O failure of the legacy stream operations) is a violation attributed to the program text. Also: every mutant the checker accepts (reference-checker catalogue, variance negatives, System-F mutants) must not go wrong; 18 programs with a term hole in each position; 516 data/codata declarations over a small name pool; 1,870 existential-package openings (6 opening forms x 7 nestings x 9 binders x 6 bodies, an accepted pair escape would apply the wrong consumer); 378 constructor patterns in binder position x every run-time constructor; 168 fix-binder annotations. Decides the property for all programs below the bound; says nothing above it.",
     design_ref="C01",
     note="Trusts catch_unwind + panic location as the stuck-state observer and the harness's classification of defined traps.",
     technique="bounded-exhaustive program enumeration, each program stepped on the real interpreter under a stuck-state observer",
@@ -45,7 +45,7 @@ CLAIMED["C02"] = dict(
 )
 CLAIMED["C03"] = dict(
     category="exploration",
-    text="Positive side: every program of " + UNI + " is well typed by construction in the reference system and printed with maximal annotations, so check must accept it. Negative side: every single-site mutant that the harness's reference checker rejects must be rejected (core catalogue on a stride of the universe; all 150k System-F / F-omega mutants incl. escaping abstract types). Type-equivalence matrix: all ordered pairs of 383 small types (quantifiers, free vs bound variables, an alias, pairs, existentials, operator applications) are accepted as equal iff alpha-equivalent. Declarations: 516 data/codata declarations over a pool of 3 names are accepted iff the names are distinct. Kinding: all 7.4k type expressions with <= 4 nodes (application, arrows, products, forall / exists / type-level fn at three binder kinds) are accepted iff a reference F-omega kinding judgment kinds them.",
+    text="Positive side: every program of " + UNI + " is well typed by construction in the reference system and printed with maximal annotations, so check must accept it. Negative side: every single-site mutant that the harness's reference checker rejects must be rejected (core catalogue on a stride of the universe; all 150k System-F / F-omega mutants incl. escaping abstract types). Type-equivalence matrix: all ordered pairs of 383 small types (quantifiers, free vs bound variables, an alias, pairs, existentials, operator applications) are accepted as equal iff alpha-equivalent. Declarations: 516 data/codata declarations over a pool of 3 names are accepted iff the names are distinct. Kinding: all 7.4k type expressions with <= 4 nodes (application, arrows, products, forall / exists / type-level fn at three binder kinds) are accepted iff a reference F-omega kinding judgment kinds them. Existential scoping: 1,462 programs (6 ways to open a package x 7 positions in a surrounding pattern x 7 binder constructs incl. value-level let x a control and 5 escape channels): control accepted, every escape rejected. Fix binders: 14 annotations x 4 bodies x 3 contexts accepted iff the annotation is transparently a thunk type.",
     design_ref="C03",
     note="Trusts the generator's typing discipline (type-directed construction) and the annotation policy; a rejected class is first treated as a generator bug.",
     technique="bounded-exhaustive enumeration of well-typed programs and of definite-error mutants, accept/reject oracle",
@@ -133,7 +133,7 @@ CLAIMED["C06"] = dict(
 )
 CLAIMED["C07"] = dict(
     category="exploration",
-    text="(a) Probes: 33 binding forms x 5 enclosing layers x 4 providers of a same-named outer binding, plus block/boundary probes: the reference scoping discipline predicts which binder an occurrence denotes and the real resolver+checker+interpreter must agree (observable through distinct literal values). (b) Renaming: every program of the universe printed under four naming strategies (all fresh; one name for everything the scoping rules allow; a 3-name pool; binders named after types used in their own annotations) must be accepted alike and produce the same output and result. Exhaustive below the universe bound (quick tier: every 3rd program for renaming).",
+    text="(a) Probes: 33 binding forms x 5 enclosing layers x 4 providers of a same-named outer binding, plus block/boundary probes: the reference scoping discipline predicts which binder an occurrence denotes and the real resolver+checker+interpreter must agree (observable through distinct literal values). (b) Renaming: every program of the universe printed under four naming strategies (all fresh; one name for everything the scoping rules allow; a 3-name pool; binders named after types used in their own annotations) must be accepted alike and produce the same output and result. (c) Pattern shadowing: 9 pattern shapes x every assignment of two names to the leaves x 10 binder constructs incl. `that`: a repeated name denotes the last component binding it. Exhaustive below the universe bound (quick tier: every 3rd program for renaming).",
     design_ref="C07",
     note="Trusts the printer's capture-avoidance computation (which names a binder may take without capturing a later use), itself validated by agreement on the unchanged tree.",
     technique="bounded-exhaustive enumeration of scoping probes and of alpha-variants of every universe program, differential oracle between variants on the real pipeline",
